@@ -21,7 +21,9 @@ PinCat == {<<1, 0, 2, 0, 4, 1, 1>>, <<1, 4, 2, 0, 8, 1, 1>>, <<1, 2, 0, 0, 1, 0,
 Moves == {<<2, 0>>, <<0, -2>>, <<-2, 2>>}
 VARIABLES shp, rect, pins, jn, jpos, cn, cend, txn, hreg, fresh, hist
 vars == <<shp, rect, pins, jn, jpos, cn, cend, txn, hreg, fresh, hist>>
-\* shp/jn/cn : id -> "none" | "queued" | "live" | "dying" ; fresh: objects created in the current transaction
+\* shp/jn/cn : id -> "none" | "queued" | "live" | "dying" ; fresh: objects created in the current transaction, plus the
+\* marker Queued when any action at all (a move, an end change, a new pin, new checkpoints) waits in the router's action list
+Queued == 0
 Exists(st) == st \in {"queued", "live"}
 Init == /\ shp = [s \in ShapeIds |-> "none"] /\ rect = [s \in ShapeIds |-> <<0, 0, 0, 0>>] /\ pins = {}
         /\ jn = [j \in JuncIds |-> "none"] /\ jpos = [j \in JuncIds |-> <<0, 0>>]
@@ -39,7 +41,7 @@ ProcessNow == /\ shp' = [s \in ShapeIds |-> Settle(shp[s])] /\ jn' = [j \in Junc
               /\ hreg' = {} /\ fresh' = {}
 \* an action that changed (shp2, jn2, cn2, pins2, cend2) -- processed at once when transactions are off
 After(shp2, jn2, cn2, pins2, cend2, fr) ==
-    IF txn THEN shp' = shp2 /\ jn' = jn2 /\ cn' = cn2 /\ pins' = pins2 /\ cend' = cend2 /\ fresh' = fresh \cup fr /\ UNCHANGED hreg
+    IF txn THEN shp' = shp2 /\ jn' = jn2 /\ cn' = cn2 /\ pins' = pins2 /\ cend' = cend2 /\ fresh' = fresh \cup fr \cup {Queued} /\ UNCHANGED hreg
     ELSE /\ shp' = [s \in ShapeIds |-> Settle(shp2[s])] /\ jn' = [j \in JuncIds |-> Settle(jn2[j])] /\ cn' = [c \in ConnIds |-> Settle(cn2[c])]
          /\ pins' = {p \in pins2 : Settle(shp2[p[1]]) # "none"}
          /\ cend' = [c \in ConnIds |-> <<Detach(cend2[c][1], shp2), Detach(cend2[c][2], shp2)>>] /\ hreg' = {} /\ fresh' = {}
@@ -53,14 +55,16 @@ UsesShape(s) == {c \in ConnIds : Exists(cn[c]) /\ (\E i \in 1..2 : cend[c][i].k 
 NewShape(s, r) == /\ shp[s] = "none" /\ RectFree(s, r) /\ rect' = [rect EXCEPT ![s] = r]
                   /\ After([shp EXCEPT ![s] = "queued"], jn, cn, pins, cend, {s}) /\ UNCHANGED <<jpos, txn>> /\ Op(<<1, s, r[1], r[2], r[3], r[4]>>)
 NewPin(s, p) == /\ Exists(shp[s]) /\ <<s, p>> \notin pins
-                /\ pins' = pins \cup {<<s, p>>} /\ UNCHANGED <<shp, rect, jn, jpos, cn, cend, txn, hreg, fresh>>
+                /\ pins' = pins \cup {<<s, p>>} /\ fresh' = (IF txn THEN fresh \cup {Queued} ELSE fresh)
+                /\ UNCHANGED <<shp, rect, jn, jpos, cn, cend, txn, hreg>>
                 /\ Op(<<2, s, p[1], p[2], p[3], p[7], p[4], p[5], p[6]>>)
 NewJunction(j, p) == /\ jn[j] = "none" /\ jpos' = [jpos EXCEPT ![j] = p]
                      /\ After(shp, [jn EXCEPT ![j] = "queued"], cn, pins, cend, {j}) /\ UNCHANGED <<rect, txn>> /\ Op(<<3, j, p[1], p[2]>>)
 NewConn(c, e1, e2) == /\ cn[c] = "none" /\ EndOK(e1) /\ EndOK(e2) /\ e1 # e2
                       /\ After(shp, jn, [cn EXCEPT ![c] = "queued"], pins, [cend EXCEPT ![c] = <<e1, e2>>], {c})
                       /\ UNCHANGED <<rect, jpos, txn>> /\ Op(<<4, c, e1.k, e1.a, e1.b, e2.k, e2.a, e2.b>>)
-SetCheckpoint(c, p) == /\ Exists(cn[c]) /\ UNCHANGED <<shp, rect, pins, jn, jpos, cn, cend, txn, hreg, fresh>> /\ Op(<<5, c, 1, p[1], p[2], 0, 0>>)
+SetCheckpoint(c, p) == /\ Exists(cn[c]) /\ fresh' = (IF txn THEN fresh \cup {Queued} ELSE fresh)
+                       /\ UNCHANGED <<shp, rect, pins, jn, jpos, cn, cend, txn, hreg>> /\ Op(<<5, c, 1, p[1], p[2], 0, 0>>)
 MoveShape(s, d) == /\ Exists(shp[s]) /\ RectFree(s, <<rect[s][1] + d[1], rect[s][2] + d[2], rect[s][3] + d[1], rect[s][4] + d[2]>>)
                    /\ rect' = [rect EXCEPT ![s] = <<rect[s][1] + d[1], rect[s][2] + d[2], rect[s][3] + d[1], rect[s][4] + d[2]>>]
                    /\ After(shp, jn, cn, pins, cend, {}) /\ UNCHANGED <<jpos, txn>> /\ Op(<<6, s, d[1], d[2]>>)
@@ -80,6 +84,10 @@ MoveJunction(j, d) == /\ Exists(jn[j]) /\ jpos' = [jpos EXCEPT ![j] = <<jpos[j][
 RegisterHyperedge(j) == /\ txn /\ jn[j] = "live" /\ Cardinality(Attached(j)) >= 3 /\ j \notin hreg
                         /\ hreg' = hreg \cup {j} /\ UNCHANGED <<shp, rect, pins, jn, jpos, cn, cend, txn, fresh>> /\ Op(<<12, j>>)
 Process == /\ txn /\ ProcessNow /\ UNCHANGED <<rect, jpos, txn>> /\ Op(<<13>>)
+\* Router::setTransactionUse only flips a flag, and Router::deleteConnector never runs processTransaction: switching
+\* transactions off with anything queued leaves states that are "between processing points" for an unbounded number of
+\* further calls.  The explored histories switch the mode only with an empty action list (fresh = {} now covers every
+\* queued action through the Queued marker, not only objects whose existence changed).
 NothingPending == /\ \A s \in ShapeIds : shp[s] \in {"none", "live"} /\ \A c \in ConnIds : cn[c] \in {"none", "live"}
                   /\ \A j \in JuncIds : jn[j] \in {"none", "live"} /\ fresh = {} /\ hreg = {}
 SetTxn(b) == /\ txn # b /\ NothingPending /\ txn' = b
